@@ -706,7 +706,10 @@ class Translator:
                 self.missing.append(spec["id"])
             spec["_mod"], spec["_fn"] = mod, fn
             self.specs.append(spec)
-            self.fn_by_qual[(spec["module"], spec["qual"])] = spec["id"]
+            # target of the automatic link `self.<m>` -> method of the same class: the general translation of the
+            # method, never a specialised copy (`when`: a decided `if`; `copy`: other links)
+            if not spec.get("when") and not spec.get("copy"):
+                self.fn_by_qual.setdefault((spec["module"], spec["qual"]), spec["id"])
         self.site_kinds = {}    # site name -> kind
         self.site_asm = {}      # prim site name -> list of classes
         self.results = {}
@@ -938,6 +941,7 @@ class Config:
         "hex", "ord", "chr", "abs", "divmod", "round", "any", "all", "filter", "map", "reversed", "iter", "slice",
         "hasattr", "getattr", "setattr", "callable", "id", "print", "format", "super", "object", "vars",
         "hexlify", "unhexlify", "pack", "unpack", "memoryview", "print_data", "pagedump", "itemgetter", "attrgetter",
+        "reduce",           # functools.reduce(operator.xor, <4 octets>): checksum folds of the drivers
     }
     # method calls whose receiver chain starts at one of these names
     BENIGN_ROOTS = {"log", "logging", "time", "os", "errno", "struct", "binascii", "itertools", "math", "re",
@@ -1074,19 +1078,25 @@ def _tags():
         # None): `_exchange_command` is cut at `if command is None`
         F("tt4.dep.exchange_command.cmd", T4, "IsoDepInitiator._exchange_command", when={"command is None": False}),
         F("tt4.dep.exchange_command.presence", T4, "IsoDepInitiator._exchange_command", when={"command is None": True}),
-        F("tt4.dep.exchange.cmd", T4, "IsoDepInitiator.exchange",
+        F("tt4.dep.exchange.cmd", T4, "IsoDepInitiator.exchange", copy=True,
           links={"self._exchange_command": "tt4.dep.exchange_command.cmd"}),
         F("tt4.dep.exchange.presence", T4, "IsoDepInitiator.exchange",
           when={"command is not None and self.errno is not None": False},
           links={"self._exchange_command": "tt4.dep.exchange_command.presence"}),
         F("tt4.transceive", T4, "Type4Tag.transceive", links={"self._dep.exchange": "tt4.dep.exchange"}),
-        F("tt4.transceive.cmd", T4, "Type4Tag.transceive", links={"self._dep.exchange": "tt4.dep.exchange.cmd"}),
+        F("tt4.transceive.cmd", T4, "Type4Tag.transceive", copy=True, links={"self._dep.exchange": "tt4.dep.exchange.cmd"}),
         # send_apdu passes the bytearray it has just built: the command variant
         F("tt4.send_apdu", T4, "Type4Tag.send_apdu", links={"self.transceive": "tt4.transceive.cmd"}),
         # _is_present passes the literal None: the presence check variant
         F("tt4.is_present", T4, "Type4Tag._is_present", links={"self._dep.exchange": "tt4.dep.exchange.presence"}),
     ]
     return fs
+
+
+# target discovery and the rest of the driver interface (nfc.clf.device.Device)
+DISCOVERY = {"sense_tta", "sense_ttb", "sense_ttf", "sense_dep", "listen_tta", "listen_ttb", "listen_ttf", "listen_dep",
+             "_listen_tta", "_listen_ttf", "_init_as_target", "_send_atr_response", "_send_psl_response", "close",
+             "get_max_send_data_size", "get_max_recv_data_size", "turn_on_led_and_buzzer", "turn_off_led_and_buzzer"}
 
 
 def _drivers():
@@ -1104,18 +1114,25 @@ def _drivers():
         prefix[("nfc.clf." + p, "Chipset")] = [("self.", chip)]
         prefix[("nfc.clf." + p, "Device")] = [("self.chipset.", chip), ("self.", dev)]
     only = {"send_cmd_recv_rsp", "_send_cmd_recv_rsp", "_tt1_send_cmd_recv_rsp", "_tt2_send_cmd_recv_rsp",
-            "send_rsp_recv_cmd", "_tt3_send_rsp_recv_cmd", "mute"}
+            "send_rsp_recv_cmd", "_tt3_send_rsp_recv_cmd", "mute", "__init__"} | DISCOVERY
     sup = {"links": {"super(Device, self).send_cmd_recv_rsp": "pn53x.Device.send_cmd_recv_rsp",
                      "super(Device, self).send_rsp_recv_cmd": "pn53x.Device.send_rsp_recv_cmd"}}
+    # target objects built from the bitrate of the argument (a Target object) or a literal: the bitrate pattern matches
+    TARGETS = ["nfc.clf.RemoteTarget", "nfc.clf.LocalTarget"]
     for p in PN:
         per = {"send_cmd_recv_rsp": sup, "send_rsp_recv_cmd": sup,
                "_send_cmd_recv_rsp": {"benign": ["bitrate", "framing"]}}
+        for m in sorted(DISCOVERY | {"__init__"}):
+            per[m] = {"benign": TARGETS}
+            if p != "pn53x":
+                per[m]["links"] = {"super(Device, self)." + m: "pn53x.Device." + m}
         if p in ("pn532", "pn533"):
             # the READ-SEGMENT emulation calls itself with a READ8 command (data[0] == 0x02): linked to the
             # copy of the function in which the READ-SEGMENT branch is cut
             per["_tt1_send_cmd_recv_rsp"] = {"links": {"self._tt1_send_cmd_recv_rsp": p + ".Device._tt1_send_cmd_recv_rsp.read8"}}
         if p == "rcs956":
             per["mute"] = {"links": {"super(Device, self).mute": "pn53x.Device.mute"}}
+            per["__init__"]["links"]["chipset.reset_mode"] = "rcs956.Chipset.reset_mode"
         cls_specs.append((p + ".Device", "nfc.clf." + p, "Device", {"only": only, "per": per}))
     funcs = [
         F("pn532.Device._tt1_send_cmd_recv_rsp.read8", "nfc.clf.pn532", "Device._tt1_send_cmd_recv_rsp",
@@ -1128,15 +1145,52 @@ def _drivers():
                       "kw": {"benign": ["Frame"]}}))
     cls_specs.append(("rcs380.Device", "nfc.clf.rcs380", "Device",
                       {"only": {"send_cmd_recv_rsp", "_send_cmd_recv_rsp", "_tt2_send_cmd_recv_rsp",
-                                "send_rsp_recv_cmd", "mute"}}))
+                                "send_rsp_recv_cmd", "mute"} | DISCOVERY,
+                       "per": dict({m: {"benign": TARGETS} for m in DISCOVERY},
+                                   listen_tta={"benign": TARGETS, "links": {"listen_tta_tt2": "rcs380.Device.listen_tta.tt2",
+                                                                            "listen_tta_tt4": "rcs380.Device.listen_tta.tt4"}},
+                                   listen_dep={"benign": TARGETS, "links": {
+                                       "verify_frame": "rcs380.Device.listen_dep.verify_frame",
+                                       "send_res_recv_req": "rcs380.Device.listen_dep.send_res_recv_req",
+                                       "send_dsl_res": "rcs380.Device.listen_dep.send_dsl_res",
+                                       "send_rls_res": "rcs380.Device.listen_dep.send_rls_res",
+                                       "send_psl_res": "rcs380.Device.listen_dep.send_psl_res"}})}))
+    LD = "Device.listen_dep.<locals>."
+    nested = {"send_res_recv_req": "rcs380.Device.listen_dep.send_res_recv_req"}
+    funcs += [
+        F("rcs380.Device.listen_tta.tt2", "nfc.clf.rcs380", "Device.listen_tta.<locals>.listen_tta_tt2", benign=TARGETS),
+        F("rcs380.Device.listen_tta.tt4", "nfc.clf.rcs380", "Device.listen_tta.<locals>.listen_tta_tt4", benign=TARGETS),
+        F("rcs380.Device.listen_dep.verify_frame", "nfc.clf.rcs380", LD + "verify_frame"),
+        F("rcs380.Device.listen_dep.send_res_recv_req", "nfc.clf.rcs380", LD + "send_res_recv_req",
+          links={"verify_frame": "rcs380.Device.listen_dep.verify_frame"}),
+        F("rcs380.Device.listen_dep.send_dsl_res", "nfc.clf.rcs380", LD + "send_dsl_res", links=nested),
+        F("rcs380.Device.listen_dep.send_rls_res", "nfc.clf.rcs380", LD + "send_rls_res", links=nested),
+        F("rcs380.Device.listen_dep.send_psl_res", "nfc.clf.rcs380", LD + "send_psl_res", links=nested),
+    ]
     prefix[("nfc.clf.rcs380", "Chipset")] = [("self.", ["rcs380.Chipset"])]
     prefix[("nfc.clf.rcs380", "Device")] = [("self.chipset.", ["rcs380.Chipset"]), ("self.", ["rcs380.Device"])]
     # ---- UDP
     cls_specs.append(("udp.Device", "nfc.clf.udp", "Device",
-                      {"only": {"send_cmd_recv_rsp", "send_rsp_recv_cmd", "_send_data", "_recv_data", "mute"},
-                       "per": {"_recv_data": {"sites": {"unhexlify": ["ValueError"], "brty.decode": ["UnicodeDecodeError"],
-                                                        "data.split": []}}}}))
+                      {"only": {"send_cmd_recv_rsp", "send_rsp_recv_cmd", "_send_data", "_recv_data", "mute",
+                                "_create_socket", "_bind_socket"} | DISCOVERY,
+                       "per": dict({m: {"benign": TARGETS + ["reduce"]} for m in DISCOVERY},     # reduce: checksum folds
+                                   _recv_data={"sites": {"unhexlify": ["ValueError"], "brty.decode": ["UnicodeDecodeError"],
+                                                         "data.split": []}},
+                                   _create_socket={"sites": {"socket.socket": ["OSError"]}})}))
     prefix[("nfc.clf.udp", "Device")] = [("self.", ["udp.Device"])]
+    # ---- the driver base class (every method raises NotImplementedError or does nothing) and the Arygon variants
+    cls_specs.append(("device.Device", "nfc.clf.device", "Device", {"exclude": {"__init__", "__str__"}}))
+    for v, base in (("A", "pn531"), ("B", "pn532")):
+        cls_specs.append(("arygon.Chipset" + v, "nfc.clf.arygon", "Chipset" + v, {"only": {"write_frame"}}))
+        cls_specs.append(("arygon.Device" + v, "nfc.clf.arygon", "Device" + v,
+                          {"only": {"close"}, "kw": {"sites": {"self.chipset.transport.tty.write": ["OSError"]},
+                                                     "links": {"self.chipset.close": "pn53x.Chipset.close"}}}))
+    funcs.append(F("arygon.init", "nfc.clf.arygon", "init",
+                   # serial port of the reader: pyserial reports failures as SerialException, an IOError
+                   sites={"transport.open": ["OSError"], "transport.tty.write": ["OSError"], "transport.tty.readline": ["OSError"]},
+                   # ChipsetA/B(...) store their arguments; DeviceA/B(...) run pn53x.Device.__init__ (diagnose: IOError)
+                   benign=["ChipsetA", "ChipsetB", "transport.tty.readline().startswith"],
+                   links={"DeviceA": "pn531.Device.__init__", "DeviceB": "pn532.Device.__init__"}))
     return funcs, cls_specs, prefix
 
 def _stack():
@@ -1155,6 +1209,13 @@ def _stack():
                  "FelicaPlug"]
     mutes = ["pn53x.Device.mute", "rcs956.Device.mute", "rcs380.Device.mute", "udp.Device.mute"]
     DEVT = [COMM, OS, "nfc.clf.UnsupportedTargetError"]   # sense_* / listen_* may also refuse the target
+
+    def drv(m):
+        """`self.device.<m>` for every driver class: the method each class resolves to (method resolution order)"""
+        pn = lambda p: "%s.Device.%s|pn53x.Device.%s|device.Device.%s" % (p, m, m, m)
+        return [pn("pn531"), pn("pn532"), pn("pn533"), pn("rcs956"), pn("acr122"),
+                "arygon.DeviceA.%s|" % m + pn("pn531"), "arygon.DeviceB.%s|" % m + pn("pn532"),
+                "rcs380.Device.%s|device.Device.%s" % (m, m), "udp.Device.%s|device.Device.%s" % (m, m)]
     fs = [
         # ---- tag activation
         F("tag.activate", TAG, "activate", links={"activate_tt1": "tag.activate_tt1", "activate_tt2": "tag.activate_tt2",
@@ -1239,17 +1300,25 @@ def _stack():
         F("clf.sense.several", CLF, "ContactlessFrontend.sense", when={"len(targets) == 1": False},
           links={"self.device.mute": mutes, "sense_tta": "clf.sense.tta", "sense_ttb": "clf.sense.ttb",
                  "sense_ttf": "clf.sense.ttf", "sense_dep": "clf.sense.dep"}),
-        F("clf.sense.tta", CLF, "ContactlessFrontend.sense.<locals>.sense_tta", sites={"self.device.sense_tta": DEVT}),
-        F("clf.sense.ttb", CLF, "ContactlessFrontend.sense.<locals>.sense_ttb", sites={"self.device.sense_ttb": DEVT}),
-        F("clf.sense.ttf", CLF, "ContactlessFrontend.sense.<locals>.sense_ttf", sites={"self.device.sense_ttf": DEVT}),
-        F("clf.sense.dep", CLF, "ContactlessFrontend.sense.<locals>.sense_dep", sites={"self.device.sense_dep": DEVT}),
+        F("clf.sense.tta", CLF, "ContactlessFrontend.sense.<locals>.sense_tta", links={"self.device.sense_tta": drv("sense_tta")}),
+        F("clf.sense.ttb", CLF, "ContactlessFrontend.sense.<locals>.sense_ttb", links={"self.device.sense_ttb": drv("sense_ttb")}),
+        F("clf.sense.ttf", CLF, "ContactlessFrontend.sense.<locals>.sense_ttf", links={"self.device.sense_ttf": drv("sense_ttf")}),
+        F("clf.sense.dep", CLF, "ContactlessFrontend.sense.<locals>.sense_dep", links={"self.device.sense_dep": drv("sense_dep")}),
         F("clf.listen", CLF, "ContactlessFrontend.listen",
           links={"self.device.mute": mutes, "listen_tta": "clf.listen.tta", "listen_ttb": "clf.listen.ttb", "listen_ttf": "clf.listen.ttf",
                  "listen_dep": "clf.listen.dep"}),
-        F("clf.listen.tta", CLF, "ContactlessFrontend.listen.<locals>.listen_tta", sites={"self.device.listen_tta": DEVT}),
-        F("clf.listen.ttb", CLF, "ContactlessFrontend.listen.<locals>.listen_ttb", sites={"self.device.listen_ttb": DEVT}),
-        F("clf.listen.ttf", CLF, "ContactlessFrontend.listen.<locals>.listen_ttf", sites={"self.device.listen_ttf": DEVT}),
-        F("clf.listen.dep", CLF, "ContactlessFrontend.listen.<locals>.listen_dep", sites={"self.device.listen_dep": DEVT}),
+        F("clf.listen.tta", CLF, "ContactlessFrontend.listen.<locals>.listen_tta", links={"self.device.listen_tta": drv("listen_tta")}),
+        F("clf.listen.ttb", CLF, "ContactlessFrontend.listen.<locals>.listen_ttb", links={"self.device.listen_ttb": drv("listen_ttb")}),
+        F("clf.listen.ttf", CLF, "ContactlessFrontend.listen.<locals>.listen_ttf", links={"self.device.listen_ttf": drv("listen_ttf")}),
+        F("clf.listen.dep", CLF, "ContactlessFrontend.listen.<locals>.listen_dep", links={"self.device.listen_dep": drv("listen_dep")}),
+        F("clf.init", CLF, "ContactlessFrontend.__init__"),
+        F("clf.open", CLF, "ContactlessFrontend.open", links={"device.connect": "device.connect"}),
+        F("clf.close", CLF, "ContactlessFrontend.close", links={"self.device.close": drv("close")}),
+        # nfc.clf.device.connect: the transports and the drivers' init() functions report failures as IOError
+        F("device.connect", "nfc.clf.device", "connect",
+          sites={"transport.USB.find": [OS], "transport.TTY.find": [OS], "transport.USB": [OS], "transport.TTY": [OS],
+                 "tty.close": [OS], "driver.init": [OS], "importlib.import_module": ["ImportError"]},
+          benign=["sys.platform.startswith", "path.startswith"]),
         # `exchange = self.device.send_cmd_recv_rsp / send_rsp_recv_cmd; exchange(...)`: any of the translated drivers
         F("clf.exchange", CLF, "ContactlessFrontend.exchange", links={"exchange": drivers_cmd + drivers_rsp}),
         # ---- LLC
@@ -1521,7 +1590,7 @@ def _sock():
            "connect": nobind, "listen": nobind, "sendto": nobind}
     cls_specs.append(("llc", LLC, "LogicalLinkController", {"only": only, "per": per, "kw": {"benign": ctors, "links": api}}))
     funcs += [
-        F("llc.bind.none", LLC, "LogicalLinkController.bind", links={"self._bind": "llc._bind.none"}),
+        F("llc.bind.none", LLC, "LogicalLinkController.bind", copy=True, links={"self._bind": "llc._bind.none"}),
         F("llc._bind.none", LLC, "LogicalLinkController._bind", when={"addr_or_name is None": True}),
     ]
     # ---- collect / dispatch of the link loop
@@ -1546,17 +1615,71 @@ def _sock():
     return funcs, cls_specs, prefix
 
 
+
+def _clients():
+    """SNEP and handover clients (C06, C07, C09).  Layer boundary as for the server threads (`_stack`): the socket API
+    raises `nfc.llcp.Error` only (group `sock`: proved up to the residual named there), ndeflib raises
+    `DecodeError` / `ValueError` when decoding and `EncodeError` when encoding; `close()` / `getpeername()` of a socket
+    object have nothing to raise (llc.py: ENOTSOCK only)."""
+    SNEP, HO = "nfc.snep.client", "nfc.handover.client"
+    LLCERR = "nfc.llcp.err.Error"
+    sock = lambda name: {name + ".connect": [LLCERR], name + ".recv": [LLCERR], name + ".send": [LLCERR],
+                         name + ".poll": [LLCERR], name + ".setsockopt": [LLCERR], name + ".getsockopt": [LLCERR],
+                         name + ".getpeername": [], name + ".close": []}
+    ND = {"ndef.message_decoder": ["ndef.DecodeError", "ValueError"], "ndef.message_encoder": ["ndef.EncodeError"]}
+    ctor = ["nfc.llcp.Socket"]           # Socket.__init__ -> llc.socket(): raises nothing (group sock)
+    S = dict(sock("self.socket"), **ND)
+    fs = [
+        F("snep.client.send_request", SNEP, "send_request", sites=sock("socket")),
+        F("snep.client.recv_response", SNEP, "recv_response", sites=sock("socket")),
+    ]
+    for m in ("connect", "close", "get_records", "get_octets", "put_records", "put_octets", "__enter__", "__exit__"):
+        fs.append(F("snep.client." + m, SNEP, "SnepClient." + m, sites=S, benign=ctor,
+                    links={"send_request": "snep.client.send_request", "recv_response": "snep.client.recv_response"}))
+    H = dict(sock("self.socket"), **dict(sock("socket"), **ND))
+    for m in ("connect", "close", "send_records", "send_octets", "recv_records", "recv_octets", "__enter__", "__exit__"):
+        fs.append(F("handover.client." + m, HO, "HandoverClient." + m, sites=H, benign=ctor))
+    return fs
+
+
+
+def _stack_copies():
+    """`connect(llcp=...)` without the layer boundaries between the frontend, the link controller and NFC-DEP activation:
+    copies of five functions in which the assumption sites `mac.activate`, `self.clf.sense`, `self.clf.listen` are
+    replaced by links to the translated functions (which reach the drivers' `sense_*` / `listen_*`).  What remains
+    assumed on this path: `clf.exchange` raises `CommunicationError` subclasses (proved of the drivers up to the
+    residual of `clf_exchange_escapes`), `mac.exchange` / `mac.deactivate` as in `llc.exchange` / `llc.terminate`."""
+    dep = {s["id"]: s for s in _dep()}
+    stack = {s["id"]: s for s in _stack()}
+
+    def copy(src, new_id, links):
+        d = dict(src)
+        d.update(id=new_id, copy=True, links=dict(src.get("links", {}), **links),
+                 sites={k: v for k, v in src.get("sites", {}).items() if k not in links})
+        return d
+    return [
+        # listen() for a peer-to-peer target (`atr_res` set, as `Target.activate` does): the `listen_dep` branch
+        dict(stack["clf.listen"], id="clf.listen.p2p", when={"target.atr_res is not None": True}),
+        copy(dep["dep.Target.activate"], "dep.Target.activate.stack", {"self.clf.listen": "clf.listen.p2p"}),
+        copy(dep["dep.Initiator.activate"], "dep.Initiator.activate.stack", {"self.clf.sense": "clf.sense"}),
+        copy(stack["llc.activate"], "llc.activate.stack",
+             {"mac.activate": ["dep.Initiator.activate.stack", "dep.Target.activate.stack"]}),
+        copy(stack["clf.llcp_connect"], "clf.llcp_connect.stack", {"llc.activate": "llc.activate.stack"}),
+        copy(stack["clf.connect"], "clf.connect.stack", {"self._llcp_connect": "clf.llcp_connect.stack"}),
+    ]
+
+
 Config.FUNCS = _tags()
 _f, _c, _p = _drivers()
 Config.FUNCS = Config.FUNCS + _f + _stack()
 _f2, _c2, _p2, _s2 = _tag_ops()
 Config.SCOPED_LINKS = _s2
 _f3, _c3, _p3 = _sock()
-Config.FUNCS = Config.FUNCS + _f2 + _dep() + _f3
+Config.FUNCS = Config.FUNCS + _f2 + _dep() + _f3 + _clients() + _stack_copies()
 Config.CLASS_SPECS = _c + _c2 + _c3
 Config.PREFIX_LINKS = dict(list(_p.items()) + list(_p2.items()) + list(_p3.items()))
 # abstract methods that every concrete driver overrides: not a dispatch target
-Config.ABSTRACT = {"pn53x.Chipset._read_register", "pn53x.Chipset._write_register"}
+Config.ABSTRACT = {"pn53x.Chipset._read_register", "pn53x.Chipset._write_register", "pn53x.Device._init_as_target"}
 Config.GLOBAL_SITES.update({
     # host link of the drivers: the transport reports failures as IOError (ETIMEDOUT, EIO, ENODEV ...)
     "self.transport.*": ["OSError"],
